@@ -125,7 +125,8 @@ def to_rdflib(t):
     if k == "B":
         return rdflib.BNode(t[1])
     if k == "L":
-        return rdflib.Literal(t[1], lang=t[2], datatype=t[3])
+        # (rdflib refuses a literal that states both; such a term is then not a fixpoint)
+        return rdflib.Literal(t[1], lang=t[2], datatype=None if t[2] else t[3])
     if k == "D":
         return DATASET_DEFAULT_GRAPH_ID
     if k == "X":
